@@ -106,7 +106,7 @@ def compile_driver(driver_cpp_text, repo_sources, sanitize=True, opt='-O1'):
     """compile a generated C++ driver together with /repo sources -> executable path (cached)"""
     srcs = [repo_path(s) for s in repo_sources]
     flags = ['-std=c++11', opt, '-g'] + (['-fsanitize=address,undefined', '-fno-omit-frame-pointer',
-                                          '-fno-sanitize-recover=undefined'] if sanitize else []) + DEFS
+                                          '-fno-sanitize-recover=undefined', '-fno-sanitize=nonnull-attribute'] if sanitize else []) + DEFS
     h = hashlib.sha256(driver_cpp_text.encode()).hexdigest()[:16]
     os.makedirs(CACHE, exist_ok=True)
     out = os.path.join(CACHE, 'drv_%s_%s' % (h, _key(srcs, flags)))
@@ -152,8 +152,11 @@ def compile_objs_driver(driver_cpp_text, repo_sources, sanitize=True, opt='-O1')
     linked objects defines are resolved to trapping weak stubs - for classes whose translation unit references parts of
     libawkward that cannot be built here (never executed on the replayed path; executing one traps)."""
     srcs = [repo_path(s) for s in repo_sources]
+    alloc = repo_path('src/cpu-kernels/allocators.cpp')      # awkward_malloc / awkward_free are real code, never stubs
+    if alloc not in srcs:
+        srcs.append(alloc)
     flags = ['-std=c++11', opt, '-g'] + (['-fsanitize=address,undefined', '-fno-omit-frame-pointer',
-                                          '-fno-sanitize-recover=undefined'] if sanitize else []) + DEFS
+                                          '-fno-sanitize-recover=undefined', '-fno-sanitize=nonnull-attribute'] if sanitize else []) + DEFS
     os.makedirs(CACHE, exist_ok=True)
     h = hashlib.sha256(driver_cpp_text.encode()).hexdigest()[:16]
     out = os.path.join(CACHE, 'drvo_%s_%s' % (h, _key(srcs, flags)))
